@@ -154,12 +154,18 @@ class C11(Prop):
     lean_modules = ["Pfb.C11.Props"]
     theorems = [
         "Pfb.C11.fill_tokens",
-        "Pfb.C11.fillLines_width",
+        "Pfb.C11.fill_width",
         "Pfb.C11.C11_width",
-        "Pfb.C11.C11_roundtrip",
+        "Pfb.C11.C11_width_physical",
         "Pfb.C11.C11_roundtrip_core",
+        "Pfb.C11.C11_roundtrip",
         "Pfb.C11.C11_roundtrip_unrepaired",
         "Pfb.C11.readBack_imports",
+        "Pfb.C11.getStatements_imports",
+        "Pfb.C11.split_roundtrip",
+        "Pfb.C11.C11_imports_exact",
+        "Pfb.C11.C11_set_only",
+        "Pfb.C11.C11_fixpoint",
         "Pfb.C11.D2_witness_plain",
         "Pfb.C11.D2_witness_star",
     ]
